@@ -617,10 +617,8 @@ package hclwrite
 // any number of literal pieces (the scanner splits a literal at '$' and '%') and a closing quote.
 // This is what the loader (parseBlockLabels) and the generator (TokensForValue of a string) produce.
 // litOK(b): the literal bytes b hold no invalid escape sequence (uninterpreted; see ParseStringLiteralToken).
-// verif:specfunc litOK(b []byte) bool
 // litVal(b): the string the literal bytes b stand for after escape processing (uninterpreted; it is
 // whatever ParseStringLiteralToken returns).
-// verif:specfunc litVal(b []byte) string
 // (hasErr and the contract of Diagnostics.HasErrors are in the root package contract file.)
 // verif:pred QuotedWF(ts Tokens) = len(ts) >= 2 && (forall i int :: { ts[i] } 0 <= i && i < len(ts) ==> ts[i] != nil) && ts[0].Type == hclsyntax.TokenOQuote && ts[len(ts) - 1].Type == hclsyntax.TokenCQuote && (forall i int :: { ts[i] } 1 <= i && i < len(ts) - 1 ==> ts[i].Type == hclsyntax.TokenQuotedLit && litOK(ts[i].Bytes))
 // verif:pred LabelNodeWF(k *node) = k != nil && ((typeis(k.content, ptr(identifier)) && unbox(k.content, ptr(identifier)) != nil && unbox(k.content, ptr(identifier)).token != nil && unbox(k.content, ptr(identifier)).token.Type == hclsyntax.TokenIdent) || (typeis(k.content, ptr(quoted)) && unbox(k.content, ptr(quoted)) != nil && QuotedWF(unbox(k.content, ptr(quoted)).tokens)))
@@ -635,18 +633,12 @@ package hclwrite
 //@ ensures listed == len(ret)
 //@ loop 1 invariant len(ret) >= 0 && fresh(ret) && (forall i int :: { ret[i] } 0 <= i && i < len(ret) ==> has(ns, ret[i]))
 
-// The escape decoder itself is not under contract here: litOK is defined as "it reports no error".
-// verif:extfunc github.com/hashicorp/hcl/v2/hclsyntax.ParseStringLiteralToken
-//@ trusted
-//@ requires tok.Type == TokenQuotedLit || tok.Type == TokenStringLit
-//@ assigns nothing
-//@ ensures litOK(tok.Bytes) ==> !hasErr(ret1)
-//@ ensures ret0 == litVal(tok.Bytes)
+// (the contract of hclsyntax.ParseStringLiteralToken - litOK / litVal - is in the hclsyntax contract file)
 
 // Every well-formed label yields exactly one string: none is dropped, none is added.
 // verif:func (*blockLabels).Current
 //@ requires bl.items != nil && (forall r ref :: { has(bl.items, r) } has(bl.items, r) ==> r != nil && allocated(r)) && (forall k *node :: { has(bl.items, k) } has(bl.items, k) ==> LabelNodeWF(k) && k.list != nil)
-//@ assigns listed
+//@ assigns listed, litDecodes
 //@ ensures count: len(ret) == listed
 //@ loop 1 invariant len(labelNames) == rangeindex + 1 && fresh(labelNames) && rangeindex + 1 <= len(list)
 // The label string of a quoted label with one literal piece is that piece decoded, of an empty quoted label "".
